@@ -68,6 +68,9 @@ impl World for MpmcZstWorld {
     fn id(&self) -> u8 {
         18
     }
+    fn shared_wakers(&self) -> bool {
+        true
+    }
     fn name(&self) -> &'static str {
         "mpmc-zst"
     }
@@ -80,7 +83,7 @@ impl World for MpmcZstWorld {
         for flavour in [FL_LOCAL, FL_CHECKED] {
             for y in [BUF_ARRAY, BUF_FIXED, BUF_GROWING] {
                 for x in [0u8, 1, 2, 3] {
-                    v.push(Cfg { flavour, mode: 0, x, y, k });
+                    v.push(Cfg { flavour, mode: 0, x, y, k, sw: 0 });
                 }
             }
         }
@@ -89,10 +92,10 @@ impl World for MpmcZstWorld {
     fn enum_configs(&self, tier: Tier) -> Vec<(Cfg, usize)> {
         let d = if tier == Tier::Quick { 5 } else { 7 };
         vec![
-            (Cfg { flavour: FL_CHECKED, mode: 0, x: 0, y: BUF_FIXED, k: 2 }, d),
-            (Cfg { flavour: FL_CHECKED, mode: 0, x: 1, y: BUF_FIXED, k: 2 }, d),
-            (Cfg { flavour: FL_CHECKED, mode: 0, x: 1, y: BUF_ARRAY, k: 2 }, d),
-            (Cfg { flavour: FL_CHECKED, mode: 0, x: 1, y: BUF_GROWING, k: 2 }, d),
+            (Cfg { flavour: FL_CHECKED, mode: 0, x: 0, y: BUF_FIXED, k: 2, sw: 0 }, d),
+            (Cfg { flavour: FL_CHECKED, mode: 0, x: 1, y: BUF_FIXED, k: 2, sw: 0 }, d),
+            (Cfg { flavour: FL_CHECKED, mode: 0, x: 1, y: BUF_ARRAY, k: 2, sw: 0 }, d),
+            (Cfg { flavour: FL_CHECKED, mode: 0, x: 1, y: BUF_GROWING, k: 2, sw: 0 }, d),
         ]
     }
     fn specs(&self, cfg: &Cfg) -> Vec<OpSpec> {
@@ -174,10 +177,11 @@ struct Counts {
 
 fn run_m<M: RawMutex + 'static, A: RingBuf<Item = Z> + 'static>(cfg: &Cfg, ops: &[Op], run: &mut Run) {
     tls::reset_history();
+    tls::set_shared_b(cfg.sw == 1);
     Z_DROPS.with(|c| c.set(0));
     let cap = cfg.x as u64;
     let bounded = cfg.y != BUF_GROWING;
-    let chan: GenericChannel<M, Z, A> = GenericChannel::with_capacity(cap as usize);
+    let chan: GenericChannel<M, Z, A> = if cfg.y == BUF_ARRAY && cfg.flavour == FL_LOCAL { GenericChannel::new() } else { GenericChannel::with_capacity(cap as usize) };
     let k = cfg.k as usize;
     let mut send: Vec<Slot<ChannelSendFuture<'_, M, Z>>> = (0..k).map(|i| Slot::new(i as u8)).collect();
     let mut recv: Vec<Slot<ChannelReceiveFuture<'_, M, Z>>> = (0..k).map(|i| Slot::new((k + i) as u8)).collect();
